@@ -7,6 +7,7 @@ CONSTANTS
   NsSampled = {9, 10}
   SampleMod = 16
   SampleRes = 1
+  ModeMod = 1
   NsAlpha = {}
   AlphaBytes = {}
   NsBig = {}
